@@ -158,6 +158,11 @@ func propC11Sequential(t *rapid.T) {
 	// batches, simulated time, hosts with a wrong date): 1970, 2019, 2200
 	clock := rapid.SampledFrom([]int64{0, 0, 1559347200e9, 7258118400e9}).Draw(t, "stampEpoch") + rapid.Int64Range(0, 5).Draw(t, "t0")
 	straggler := false
+	// the wrapped core's level may be dynamic (an AtomicLevel behind Config.Build): in a third of the histories the
+	// threshold moves AFTER the samplers were built - the budget of a (level, message) pair must not depend on which
+	// levels happened to be enabled at construction, and entries disabled at the moment of the call consume nothing
+	dynamicTh := rapid.IntRange(0, 2).Draw(t, "dynamicThreshold") == 0
+	thMoved := false
 	cnt := rapid.IntRange(1, 60).Draw(t, "entries")
 	boundary, dropped, thereafterAdmit, collided := false, false, false, false
 	usedMsgs := map[uint32]map[string]bool{}
@@ -173,6 +178,14 @@ func propC11Sequential(t *rapid.T) {
 		if late := rapid.SampledFrom([]int64{0, 0, 0, 0, 0, 1, tick / 2, tick, tick + 1, 3*tick + 1}).Draw(t, "stampLag"); late > 0 && now-late >= 0 {
 			now -= late
 			straggler = true
+		}
+		if dynamicTh && rapid.IntRange(0, 5).Draw(t, "moveThreshold") == 0 {
+			thv = zapcore.Level(rapid.SampledFrom([]int8{-128, -2, -1, -1, 0, 1, 2, 5}).Draw(t, "newThreshold"))
+			th = thv
+			for _, md := range models {
+				md.th = thv
+			}
+			thMoved = true
 		}
 		lvl := zapcore.Level(rapid.SampledFrom([]int8{-2, -1, 0, 0, 1, 2, 5, 6, 100, 0, 0}).Draw(t, "level"))
 		msg := rapid.SampledFrom(c11Messages).Draw(t, "msg")
@@ -267,6 +280,9 @@ func propC11Sequential(t *rapid.T) {
 	}
 	if collided {
 		labels = append(labels, "hash-colliding messages share a budget")
+	}
+	if thMoved {
+		labels = append(labels, "wrapped core's threshold moved after the sampler was built")
 	}
 	statCase("C11", nt, fmt.Sprintf("seq|n%d m%d tick%d th%d|b%v d%v t%v c%v|%d", min(n, 7), min(m, 7), min(tick, 11), int8(th), boundary, dropped, thereafterAdmit, collided, cnt/10), labels...)
 	if nt {
